@@ -7,7 +7,7 @@ RULE = ("random wire packets (C03 generator, incl. hostile option areas, unknown
         "packet's own fields, and the self-written signature must match the packet exactly; direct sweeps over layouts of kinds "
         "0..255 and quirk sets (quick: all single/double bits + 3000 random; thorough: all 2^17); non-trivial = non-empty layout "
         "or quirk set")
-GEN_TIE = ['options']     # TCPOptions.parse (the option walker's while loop) is also TRANSLATED from /repo's source on every run and proved equal to the model
+GEN_TIE = ['options', 'sig']     # TCPOptions.parse (the option walker's while loop) is also TRANSLATED from /repo's source on every run and proved equal to the model
 ASSUMPTIONS = []
 EXHAUSTIVE = {"all 2^17 quirk sets (thorough tier)": True, "every single option kind 0..255 x eol padding {0,1,255}": True}
 
